@@ -417,15 +417,32 @@ fn recover_line(s: &mut Sink, path: &str, amb: bool, ttl: bool, now: u64) -> (St
     let counter = std::sync::Arc::new(IoCounter { events: std::sync::atomic::AtomicU64::new(0) });
     feoxdb::verif::io::set_observer(Some(counter.clone()));
     let p = path.to_string();
-    let r = catch_unwind(AssertUnwindSafe(|| {
-        FeoxStore::builder()
-            .device_path(p.clone())
-            .hash_bits(6)
-            .enable_caching(false)
-            .enable_ttl(ttl)
-            .allow_ambiguous_legacy_recovery(amb)
-            .build()
-    }));
+    // the open runs under a watchdog: a scan that never ends (or eats memory until the address-space
+    // limit kills the process) must not take the whole run with it silently
+    let (tx, rx) = std::sync::mpsc::channel();
+    let opener = std::thread::spawn(move || {
+        let r = catch_unwind(AssertUnwindSafe(|| {
+            FeoxStore::builder()
+                .device_path(p.clone())
+                .hash_bits(6)
+                .enable_caching(false)
+                .enable_ttl(ttl)
+                .allow_ambiguous_legacy_recovery(amb)
+                .build()
+        }));
+        let _ = tx.send(r);
+    });
+    let r = match rx.recv_timeout(std::time::Duration::from_secs(20)) {
+        Ok(r) => { let _ = opener.join(); r }
+        Err(_) => {
+            let keep = format!("{}/hang_image.feox", s.dir);
+            let _ = std::fs::write(&keep, &before);
+            eprintln!("HANG: opening {} did not return within 20 s (image before the open kept as {}; amb={} ttl={} now={})", path, keep, amb, ttl, now);
+            let _ = s.ops.flush();
+            let _ = s.imp.flush();
+            std::process::exit(3);
+        }
+    };
     let io_events = counter.events.load(std::sync::atomic::Ordering::SeqCst);
     feoxdb::verif::io::set_observer(None);
     let line = match r {
@@ -624,7 +641,20 @@ fn mutate_image(rng: &mut Rng, img: &mut Vec<u8>, version: u32) -> &'static str 
             let rem = *rng.pick(&[0u64, 1, 2, 3, 1000, u64::MAX, (blocks - b) as u64, (blocks - b) as u64 + 1]);
             let mut m = vec![0u8; BS];
             fx::fill_retirement_markers(&mut m, b as u64, rem as usize);
-            match rng.below(4) { 0 => m[18] = 0, 1 => m[16] ^= 1, 2 => { for x in &mut m[8..] { *x = 0; } } _ => {} }
+            match rng.below(6) {
+                0 => m[18] = 0,
+                1 => m[16] ^= 1,
+                2 => { for x in &mut m[8..] { *x = 0; } }
+                3 | 4 => {
+                    // a *pending* marker (state byte 0) whose token is valid for it: any remaining count
+                    m[18] = 0;
+                    let rem2 = *rng.pick(&[u64::MAX, u64::MAX - b as u64, u64::MAX - b as u64 + 1, 1u64 << 63, 2, (blocks - b) as u64]);
+                    m[8..16].copy_from_slice(&rem2.to_le_bytes());
+                    let t = fx::retirement_marker_token(b as u64, &m[..19]);
+                    m[16..18].copy_from_slice(&t.to_le_bytes());
+                }
+                _ => {}
+            }
             img[off..off + BS].copy_from_slice(&m);
             "forged-marker"
         }
@@ -995,6 +1025,11 @@ fn sec_golden(s: &mut Sink, dir: &str, oracle: &mut Vec<String>) {
 }
 
 fn main() {
+    // a runaway allocation inside an open must kill this process, not the machine
+    unsafe {
+        let lim = libc::rlimit { rlim_cur: 8 << 30, rlim_max: 8 << 30 };
+        libc::setrlimit(libc::RLIMIT_AS, &lim);
+    }
     let args = parse_args();
     if let Some(dir) = kvs(&args.extra, "golden-make") {
         golden_make(&dir);
